@@ -33,33 +33,44 @@ pub mod walkdir {
     }
     #[verifier::external_body]
     pub struct Error { x: u8 }
+    impl Error {
+        // inspection of a walk error: results opaque (whatever the error is, the item was not an entry)
+        #[verifier::external_body] pub fn io_error(&self) -> (r: Option<&io::Error>) { unimplemented!() }
+        #[verifier::external_body] pub fn path(&self) -> (r: Option<&Path>) { unimplemented!() }
+        #[verifier::external_body] pub fn loop_ancestor(&self) -> (r: Option<&Path>) { unimplemented!() }
+        #[verifier::external_body] pub fn depth(&self) -> (r: usize) { unimplemented!() }
+        #[verifier::external_body] pub fn into_io_error(self) -> (r: Option<io::Error>) { unimplemented!() }
+    }
 
     #[verifier::external_body]
     pub struct WalkDir { x: u8 }
     impl WalkDir {
         pub uninterp spec fn root(&self) -> PathKey;
         pub uninterp spec fn follow(&self) -> bool;
+        pub uninterp spec fn xdev(&self) -> bool;
         /// walkdir's default: links are not followed
         #[verifier::external_body]
-        pub fn new(p: &Path) -> (r: WalkDir) ensures r.root() == p.key(), !r.follow() { unimplemented!() }
+        pub fn new(p: &Path) -> (r: WalkDir) ensures r.root() == p.key(), !r.follow(), !r.xdev() { unimplemented!() }
         #[verifier::external_body]
-        pub fn follow_links(self, yes: bool) -> (r: WalkDir) ensures r.root() == self.root(), r.follow() == yes { unimplemented!() }
+        pub fn follow_links(self, yes: bool) -> (r: WalkDir) ensures r.root() == self.root(), r.follow() == yes, r.xdev() == self.xdev() { unimplemented!() }
         #[verifier::external_body]
-        pub fn follow_root_links(self, yes: bool) -> (r: WalkDir) ensures r.root() == self.root(), r.follow() == self.follow() { unimplemented!() }
+        pub fn follow_root_links(self, yes: bool) -> (r: WalkDir) ensures r.root() == self.root(), r.follow() == self.follow(), r.xdev() == self.xdev() { unimplemented!() }
+        /// with it the walk does not descend into a directory on another filesystem (the directory itself is still delivered)
         #[verifier::external_body]
-        pub fn same_file_system(self, yes: bool) -> (r: WalkDir) { unimplemented!() }
+        pub fn same_file_system(self, yes: bool) -> (r: WalkDir) ensures r.root() == self.root(), r.follow() == self.follow(), r.xdev() == yes { unimplemented!() }
         #[verifier::external_body]
-        pub fn into_iter(self) -> (r: IntoIter) ensures r.root() == self.root(), r.follow() == self.follow() { unimplemented!() }
+        pub fn into_iter(self) -> (r: IntoIter) ensures r.root() == self.root(), r.follow() == self.follow(), r.xdev() == self.xdev() { unimplemented!() }
     }
     #[verifier::external_body]
     pub struct IntoIter { x: u8 }
     impl IntoIter {
         pub uninterp spec fn root(&self) -> PathKey;
         pub uninterp spec fn follow(&self) -> bool;
+        pub uninterp spec fn xdev(&self) -> bool;
         /// filter_entry prunes *entries* the predicate rejects (and what lies beneath them); errors are passed through.
         /// The filtered walk is what `walk_of(root, follow)` stands for.
         #[verifier::external_body]
-        pub fn filter_entry<P: FnMut(&DirEntry) -> bool>(self, pred: P) -> (r: FilterEntry) ensures r.root() == self.root(), walk_remaining(&r) == walk_of(self.root(), self.follow()) { unimplemented!() }
+        pub fn filter_entry<P: FnMut(&DirEntry) -> bool>(self, pred: P) -> (r: FilterEntry) ensures r.root() == self.root(), !self.xdev() ==> walk_remaining(&r) == walk_of(self.root(), self.follow()) { unimplemented!() }
     }
     #[verifier::external_body]
     pub struct FilterEntry { x: u8 }
